@@ -773,6 +773,13 @@ func analyse(f *ssa.Function, fk string, em *emitter) bool {
 		for c := range gs.mustRel {
 			release(st, c)
 		}
+		for c := range gs.releases {
+			// may-release of a caller-held class propagates upwards (informational: such a
+			// class handed back later is not a leak)
+			if _, ok := st.held[c]; !ok {
+				sum.releases[c] = true
+			}
+		}
 		for c, p := range gs.leaks {
 			if _, ok := st.held[c]; !ok {
 				st.held[c] = p
@@ -1094,7 +1101,14 @@ func main() {
 		}
 		l := Leak{Func: funcName(f)}
 		for c := range s.leaks {
-			l.Classes = append(l.Classes, c)
+			// a class the function also releases without having taken it (unlock-around-callback
+			// helpers such as apply's closures) is handed back, not leaked
+			if !s.releases[c] {
+				l.Classes = append(l.Classes, c)
+			}
+		}
+		if len(l.Classes) == 0 {
+			continue
 		}
 		sort.Strings(l.Classes)
 		if f.Object() != nil {
